@@ -50,6 +50,7 @@ class History:
         self.stubs = []
         self.reload_problems = []
         self.broadcast_problems = []
+        self.held_problems = []
         self.final = False
 
     def tid(self, h):
@@ -142,6 +143,13 @@ class History:
                 parts['fresh_keys'] = sorted((k.id, int(k.balance)) for k in self.all_keys(fresh) if k.balance)
                 parts['fresh_utxos'] = sorted((self.tid(u['txid']), u['output_n'], u['value']) for u in fresh.utxos())
                 parts['fresh_balance'] = fresh.balance(network=fresh.network.name) if rng.random() < 0.5 else fresh.balance()
+        rows = {k.id: int(k.balance) for k in self.all_keys(w)}
+        for w_, k_ in getattr(self, 'held', []):
+            if w_ is w:
+                self.ctx.evals += 1
+                ob = int(k_.balance())
+                if ob != rows.get(k_.key_id, 0):
+                    self.held_problems.append({'key_id': k_.key_id, 'path': k_.path, 'object_balance': ob, 'ledger_balance': rows.get(k_.key_id, 0)})
         u = ','.join('%d-%d-%d' % x for x in parts['utxos'])
         fmt = lambda bal, ut, kb: '%s/%d/%s/%s' % (status, int(bal), ','.join('%d-%d-%d' % x for x in ut), ','.join('%d-%d' % x for x in kb))
         main = fmt(parts['balance'], parts['utxos'], parts['keys'])
@@ -314,14 +322,21 @@ class History:
         if self.kind == 'single':
             return self.op_add()
         r = self.rng.random()
-        if r < 0.4:
-            self.w.new_key()
+        if not hasattr(self, 'held'):
+            self.held = []          # (wallet object, key objects it handed out): their own balance() must follow the ledger
+        if r < 0.3:
+            got = [self.w.new_key()]
+        elif r < 0.5:
+            got = [self.w.new_key_change()]
         elif r < 0.7:
-            self.w.new_key_change()
+            got = [self.w.get_key()]
+        elif r < 0.85:
+            got = list(self.w.new_keys(number_of_keys=self.rng.choice([2, 3])))
         else:
-            self.w.get_key()
+            got = list(self.w.get_keys(number_of_keys=2))
+        self.held = [(w_, k_) for (w_, k_) in self.held if w_ is self.w] + [(self.w, k_) for k_ in got]
         self.sync_keys()
-        self.record('bal', 'ok', 'new key')
+        self.record('bal', 'ok', 'new key(s)')
 
     def op_balance(self):
         self.w.balance()
@@ -412,6 +427,8 @@ def run(ctx):
         for p in h.broadcast_problems:
             ctx.violation('a transaction was broadcast but the wallet did not record it (its inputs remain selectable)',
                           {'kind': kind, 'hseed': hseed, 'nops': nops, **p})
+        for p in h.held_problems[:3]:
+            ctx.violation('a key object the wallet handed out reports another balance than the ledger has for that key', {'kind': kind, 'hseed': hseed, 'nops': nops, 'op': 'held-key', **p})
         for p in h.reload_problems:
             ctx.violation('a stored transaction does not reload as it was stored', {'kind': kind, 'hseed': hseed, 'nops': nops, 'op': 'reload', 'problem': repr(p)[:600]})
         # stored bodies as the model reloads them
